@@ -168,8 +168,9 @@ def copyEntries (cfg : GenCfg) (mk mv : Node) (lks lvs rks rvs : List Val) : Cop
            | _ => if cfg.copyNilElemPanics then .panic else .ok .nilptr 0)   -- nil pointer elements are dereferenced
         else copyN cfg mv false (zeroVal mv) rv
       valR.bind fun v s =>
-        -- a pointer key of the source is never equal to a key already in the destination
-        let (lks', lvs') := if mk.ptr then (lks ++ [lk], lvs ++ [v]) else mapSet lks lvs lk v
+        -- a pointer key of the source is never equal to a key already in the destination — except the nil
+        -- pointer, which is one key
+        let (lks', lvs') := if mk.ptr && !lk.isNilPtr then (lks ++ [lk], lvs ++ [v]) else mapSet lks lvs lk v
         (copyEntries cfg mk mv lks' lvs' rks' rvs').bind fun m s' => .ok m (ks + s + s')
     | [] => .panic
 termination_by structural rvs
